@@ -15,7 +15,7 @@ for lg in logs:
 NOTE = {
  'C07': 'thorough tier = quick bounds (the wider bounds - all deviations in one check, 2 locked entries, 4 phases, 3 kinds of second proposal - did not finish within 900 s and could not be re-run in the remaining session time)',
  'C12': 'thorough tier = quick bounds (as C07)',
- 'C13': 'thorough tier = quick bounds (buffers of 8 bytes, all 18 window templates and zero-buffers of 20 bytes together did not finish within 1500 s)',
+ 'C13': 'thorough tier = buffers up to 7 bytes and windows at every 2-aligned offset (found by separate probes after the first passes: buffers of 8 bytes, all 18 window templates and zero-buffers of 20 bytes together did not finish within 1500 s); the other obligations run their quick bounds',
  'C17': 'thorough tier = quick bounds (the wider bounds - a third participant and amounts of every length in the injectivity obligations - did not finish within 1500 s; the Int/bit-vector mix of nonces of every length is what makes these queries slow)',
 }
 rows = []
